@@ -229,6 +229,9 @@ func checkRows(n int) error {
 	if n < 0 {
 		return errors.New("negative")
 	}
+	if c := verifRowCap(); c > 0 && n > c {
+		return errors.Errorf("%d is over verification cap %d", n, c)
+	}
 	if n > maxRowsInBLock {
 		// Most blocks should be less than 100M values, but technically
 		// there is no limit (can be several billions).
